@@ -21,6 +21,7 @@ import (
 	"github.com/vektah/gqlparser/v2/ast"
 
 	"vh/plan"
+	"vh/scalars"
 )
 
 // Event is one logged invocation.
@@ -705,7 +706,15 @@ func (u *Universe) object(e *Exec, goT reflect.Type, def *ast.Definition, key st
 		if sh != nil {
 			var selected bool
 			if sub, selected = sh[name]; !selected {
-				continue
+				// selected under the name of a schema field that shares this Go field?
+				for alias := range sh {
+					if alias != name && scalars.Canonical(def.Name, alias) == name {
+						sub, selected = sh[alias], true
+					}
+				}
+				if !selected {
+					continue
+				}
 			}
 		}
 		v.Field(i).Set(u.build(e, sf.Type, fd.Type, key+"#"+name, sub))
